@@ -509,8 +509,25 @@ func runC04(ctx *vh.Ctx) error {
 		for k := ctx.Rng.Intn(3); k > 0; k-- {
 			c.InChunks = append(c.InChunks, ctx.Rng.Intn(3))
 		}
+		before := len(ctx.Res.Disagreements)
 		if err := c04One(ctx, c); err != nil {
 			return err
+		}
+		if len(ctx.Res.Disagreements) > before {
+			ctx.ShrinkNew(before, 200, func(cs any) []any {
+				cc, ok := cs.(*c04Case)
+				if !ok {
+					return nil
+				}
+				var out []any
+				for _, g := range gcase.ShrinkCandidates(cc.G) {
+					out = append(out, &c04Case{G: g, Input: cc.Input, InChunks: cc.InChunks})
+				}
+				if len(cc.InChunks) > 0 {
+					out = append(out, &c04Case{G: cc.G, Input: cc.Input})
+				}
+				return out
+			}, func(sh *vh.Ctx, cand any) { _ = c04One(sh, cand.(*c04Case)) })
 		}
 	}
 	return nil
